@@ -482,6 +482,13 @@ func (ef *Filter) filterField(ctx context.Context, v reflect.Value, filterOverri
 				if err := ef.filterField(ctx, field, filterOverrides, tm, opt...); err != nil {
 					return fmt.Errorf("%s: %w", op, err)
 				}
+			} else {
+				// a Taggable map is only tracked once one of its tags matched a
+				// key: make sure it's tracked, so its untagged values are
+				// filtered as well when none did.
+				if err := tm.trackMap(&tMap{value: reflect.ValueOf(taggedInterface), filteredFields: map[string]struct{}{}}); err != nil {
+					return fmt.Errorf("%s: %w", op, err)
+				}
 			}
 
 		// if the field is a struct
